@@ -412,3 +412,54 @@ def pair_flow(ctx):
     # match_storms argument order: (rain series, level series, storm threshold, jump threshold)
     names["match_call"] = mcalls[0]
     return names, checks
+
+
+def partial_overlap_positions(ms, msflow):
+    """In match_storms: subscripts that pick particular elements (constant index) out of the array of positions where a
+    rise and the rain overlap -- nonzero(..)[0][k], flatnonzero(..)[k], through names -- inside what the candidate storms
+    are computed from.  Returns the offending Subscript nodes (empty if the positions are always used whole)."""
+    import ast as _ast
+    inter = None
+    for n in _ast.walk(ms.node):
+        if isinstance(n, _ast.BinOp) and isinstance(n.op, _ast.BitAnd) and enclosing_func(n) is ms.node:
+            inter = n
+    if inter is None:
+        return None
+    pos_names = set()
+    for n in _ast.walk(ms.node):
+        if isinstance(n, _ast.Assign) and len(n.targets) == 1 and isinstance(n.targets[0], _ast.Name) and msflow.reaches(n.value, inter):
+            txt = _ast.unparse(n.value)
+            if any(k in txt for k in ("flatnonzero(", "nonzero(", "where(", "argwhere(")) and not any(isinstance(x, _ast.Subscript) and _const_index(x) is not None
+                                                                                                   and not _is_axis_pick(x) for x in _ast.walk(n.value)):
+                pos_names.add(n.targets[0].id)
+    bad = []
+    for n in _ast.walk(ms.node):
+        if isinstance(n, _ast.Subscript) and _const_index(n) is not None and not _is_axis_pick(n):
+            v = n.value
+            if isinstance(v, _ast.Name) and v.id in pos_names:
+                bad.append(n)
+            elif isinstance(v, (_ast.Call, _ast.Subscript)) and any(k in _ast.unparse(v) for k in ("flatnonzero(", "nonzero(", "where(", "argwhere(")) \
+                    and msflow.reaches(v, inter) and not isinstance(getattr(n, "parent", None), _ast.Subscript):
+                if not (isinstance(v, _ast.Call)):
+                    bad.append(n)
+                elif "flatnonzero(" in _ast.unparse(v.func) + "(":
+                    bad.append(n)
+    return bad
+
+
+def _const_index(sub):
+    import ast as _ast
+    sl = sub.slice
+    if isinstance(sl, _ast.Constant) and isinstance(sl.value, int):
+        return sl.value
+    if isinstance(sl, _ast.UnaryOp) and isinstance(sl.op, _ast.USub) and isinstance(sl.operand, _ast.Constant) and isinstance(sl.operand.value, int):
+        return -sl.operand.value
+    return None
+
+
+def _is_axis_pick(sub):
+    """np.nonzero(x)[0] / np.where(x)[0]: picks the axis tuple element, not a position."""
+    import ast as _ast
+    v = sub.value
+    return isinstance(v, _ast.Call) and _const_index(sub) == 0 and any(k in _ast.unparse(v.func) for k in ("nonzero", "where")) \
+        and "flatnonzero" not in _ast.unparse(v.func)
